@@ -249,7 +249,7 @@ public:
 	  \param sz number of elements in set to copy
 	  \param ftha pointer to field hash array */
 	presorted_set(const_iterator arr_start, const size_t sz, const FieldTrait_Hash_Array *ftha)
-		: _reserve(), _sz(sz), _arr(new FieldTrait[_sz]), _ftha(ftha)
+		: _reserve(), _sz(sz), _rsz(_sz + calc_reserve(_sz, _reserve)), _arr(new FieldTrait[_rsz]), _ftha(ftha)
 			{ memcpy(_arr, arr_start, _sz * sizeof(FieldTrait)); }
 
 	/*! ctor - initialise an empty set; defer memory allocation;
@@ -348,6 +348,8 @@ public:
 	  \return result with iterator to insert location and true or end() and false */
 	result insert(const_iterator what)
 	{
+		_ftha = nullptr;	// the hash array indexes the initial layout only
+
 		if (!_sz)
 		{
 			_arr = new FieldTrait[_rsz];
